@@ -457,8 +457,10 @@ theorem C16_ghost_child_paths_declared (s : Struct) (hv : validate (.struct s) =
           (fun es => checkChildPath_reports cp _ a.ty path hp msg hm es)
       split
       · refine mem_foldl_of_mem _ _ _ _ (fun x es hm => ext_namePass s x.1.core x.2 x.1.fallible es _ hm) ?_
+        refine mem_foldl_of_mem _ _ _ _ (fun y es hm => ext_childBareParentPass s y es _ hm) ?_
         exact mem_foldl_of_step _ _ _ _ (a, k) hx (fun y es hm => ext_ghostChildPass _ y es _ hm) hstep
-      · exact mem_foldl_of_step _ _ _ _ (a, k) hx (fun y es hm => ext_ghostChildPass _ y es _ hm) hstep
+      · refine mem_foldl_of_mem _ _ _ _ (fun y es hm => ext_childBareParentPass s y es _ hm) ?_
+        exact mem_foldl_of_step _ _ _ _ (a, k) hx (fun y es hm => ext_ghostChildPass _ y es _ hm) hstep
     rw [hv] at this
     cases this
 /-! ### `get_stuff` (since fix 76b7206 total: a member instruction that says nothing means the default mapping) -/
